@@ -112,7 +112,11 @@ class Observer:
         if type(exc_info[1]).__name__ == "ContractBroken":
             self.violation("contract_broken", message=str(exc_info[1])[:1500], traceback=tb[-1200:])
             return
-        if in_ropt and (innermost_ropt or not last.startswith(env.VERIF_DIR)):
+        # a user-style transform of the harness (vlib/transforms.py) that fails in its own arithmetic when ropt calls it was handed
+        # arguments of the wrong shape by ropt: that is ropt's doing, not a slip of the harness
+        callback_from_ropt = (len(frames) >= 2 and last.endswith(os.path.join("vlib", "transforms.py")) and frames[-2].filename.startswith(env.SRC)
+                              and isinstance(exc_info[1], (ValueError, IndexError)))
+        if in_ropt and (innermost_ropt or not last.startswith(env.VERIF_DIR) or callback_from_ropt):
             self.violation("unexpected_exception", exception=repr(exc_info[1]), where=f"{frames[-1].filename}:{frames[-1].lineno}",
                            traceback=tb[-1500:])
         else:
